@@ -332,5 +332,41 @@ def run(ctx):
                 ctx.disagree(st_term, sig, cols.tolist(), model.tolist(), 'term columns differ from the model rows')
 
 
+    # ---- default knots follow the data of every compile / fit (also of a re-compile, of a deep copy, of a refit)
+    import copy
+    from pygam import LinearGAM
+    rng = ctx.subrng('recompile')
+    for trial in range(6 if ctx.tier == 'quick' else 40):
+        p = rng.randint(0, 3)
+        n = rng.randint(p + 1, 9)
+        basis = rng.choice(['ps', 'cp'])
+        X1 = np.array([[rng.uniform(0, 1)] for _ in range(30)])
+        X2 = np.array([[rng.uniform(5, 9)] for _ in range(30)])
+        term = SplineTerm(0, n_splines=n, spline_order=p, basis=basis)
+        term.compile(X1)
+        t2 = copy.deepcopy(term)
+        term.compile(X2)
+        t2.compile(X2)
+        want = [float(X2.min()), float(X2.max())]
+        sig = dict(order=p, n_splines=n, basis=basis, recompile=True)
+        ctx.case(st_k, sig, nontrivial=True)
+        for which, tt in (('recompiled term', term), ('recompiled deep copy', t2)):
+            got = [float(v) for v in tt.edge_knots_]
+            if got != want:
+                ctx.fail(st_k, dict(kind='knots', why='recompile'), dict(term='s(0, n_splines=%d, spline_order=%d, basis=%r)' % (n, p, basis), which=which,
+                         first_range=[float(X1.min()), float(X1.max())], second_range=want), observed=got, expected=want,
+                         oracle='default edge knots = (min, max) of the feature of the data being compiled')
+                break
+        if trial < 3:
+            y1 = np.sin(3 * X1[:, 0]); y2 = np.cos(X2[:, 0])
+            g = LinearGAM(SplineTerm(0, n_splines=max(n, 4), spline_order=min(p, 3), basis=basis)).fit(X1, y1)
+            g.fit(X2, y2)
+            got = [float(v) for v in g.terms[0].edge_knots_]
+            ctx.case(st_k, dict(sig, refit=True), nontrivial=True)
+            if got != want:
+                ctx.fail(st_k, dict(kind='knots', why='refit'), dict(first_range=[float(X1.min()), float(X1.max())], second_range=want), observed=got, expected=want,
+                         oracle='after a refit the default edge knots are (min, max) of the new data')
+
+
 def replay(ctx, rp):
     run(ctx)
